@@ -55,14 +55,17 @@ pub fn get(prop: &str, tier: &str) -> Option<Check> {
         },
         "C05" => Check {
             prop: "C05",
-            rule_text: "each run: one stream of 1-12 MBAP frames (optionally one invalid header: protocol id != 0, length 0, length 255..65535) delivered frame-by-frame to server A and under a random chunking (random cuts, byte-at-a-time, 260-byte buffer fill, forced cuts inside a header and a body, delays, server commands processed mid-frame) to an identical server B; replies, handler journals and closure must be identical, an invalid header must end the session, and no zero-capacity read may be issued. Distinct = hash of (stream, number of cuts, decode level).",
+            rule_text: "each run: one stream of 1-12 MBAP frames (optionally one invalid header: protocol id != 0, length 0, length 255..65535) delivered frame-by-frame to server A and under a random chunking (random cuts, byte-at-a-time, 260-byte buffer fill, forced cuts inside a header and a body, delays, server commands processed mid-frame) to an identical server B; replies, handler journals and closure must be identical, an invalid header must end the session, and no zero-capacity read may be issued. Client role (mbap_chunking_client): one scripted session of 1-8 requests whose peer stream holds replies from the C04 grammar, stale/duplicate/future-id frames, late replies of timed-out requests and optionally an invalid header, played frame-by-frame to client A and under a random chunking (frames sharing or straddling reads, cuts moved around submits, time-outs and channel commands) to client B; completions, request bytes, listener states and closure must be identical. Distinct = hash of (stream, number of cuts, decode level).",
             batches: vec![
                 Batch { name: "mbap_chunking_server", f: scen::server_tcp::run_chunking, cfg: cfg(Mode::LockStep, false, 0), runs: n(60_000, 2_000_000), real: REAL_SERVER_TCP, stub: STUB_SERVER_TCP },
                 Batch { name: "mbap_chunking_server_faults", f: scen::server_tcp::run_chunking, cfg: cfg(Mode::LockStep, true, 0), runs: n(20_000, 500_000), real: REAL_SERVER_TCP, stub: STUB_SERVER_TCP },
                 Batch { name: "server_tcp_model", f: scen::server_tcp::run_model, cfg: cfg(Mode::LockStep, false, 0), runs: n(20_000, 500_000), real: REAL_SERVER_TCP, stub: STUB_SERVER_TCP },
                 Batch { name: "tls_authz_model", f: scen::tls::run_authz_model, cfg: cfg(Mode::Racy, false, 0), runs: n(2_000, 60_000), real: REAL_TLS, stub: STUB_TLS },
+                Batch { name: "mbap_chunking_client", f: scen::client_chunk::run, cfg: cfg(Mode::LockStep, false, 0), runs: n(40_000, 1_500_000), real: REAL_CLIENT_TCP, stub: STUB_CLIENT_TCP },
+                Batch { name: "mbap_chunking_client_delays", f: scen::client_chunk::run, cfg: cfg(Mode::LockStep, true, 0), runs: n(10_000, 400_000), real: REAL_CLIENT_TCP, stub: STUB_CLIENT_TCP },
+                Batch { name: "client_lockstep", f: scen::client::run_lockstep, cfg: cfg(Mode::LockStep, false, 0), runs: n(20_000, 500_000), real: REAL_CLIENT_TCP, stub: STUB_CLIENT_TCP },
             ],
-            assumptions: vec!["TLS: frames are carried in one or two TLS records over a randomly chunked ciphertext stream (tls_authz_model batch)"],
+            assumptions: vec!["TLS: frames are carried in one or two TLS records over a randomly chunked ciphertext stream (tls_authz_model batch)", "client role: the instant a frame is received is the delivery of its last byte; the chunked run keeps each such instant in the same place of the event order (submits, time-outs) as the frame-by-frame run"],
         },
         "C03" => Check {
             prop: "C03",
